@@ -45,28 +45,41 @@ Definition residuals_of (d : list (Q * Q)) : list Q := map (fun r => fst r - snd
 
 (* ------------------------------------------------------------------ column statistics *)
 
-(* sums; Qred keeps the numerals small under vm_compute and is invisible up to == *)
-Definition qsum (l : list Q) : Q := fold_right (fun x acc => Qred (x + acc)) 0 l.
+(* sums.  The terms of one sum normally share their denominator (cells over a common power of two, their
+   deviations from one mean, the squares of those): then only numerators are added and the result is
+   reduced once; otherwise every partial sum is reduced.  Invisible up to == . *)
+Definition qadd (a b : Q) : Q :=
+  if (Qnum b =? 0)%Z then a
+  else if Pos.eqb (Qden a) (Qden b) then Qmake (Qnum a + Qnum b) (Qden a)
+  else Qred (a + b).
+Definition psum (l : list Q) : Q := fold_right qadd 0 l.
+Definition qsum (l : list Q) : Q := Qred (psum l).
 Definition zlen {A} (l : list A) : Z := Z.of_nat (length l).
 Definition qlen {A} (l : list A) : Q := inject_Z (zlen l).
 
 Definition sum_sq (l : list Q) : Q := qsum (map sqr l).
 Definition mean (l : list Q) : Q := Qred (qsum l / qlen l).
-Definition dev (l : list Q) : list Q := let m := mean l in map (fun x => Qred (x - m)) l.
+Definition dev (l : list Q) : list Q := let m := mean l in map (fun x => x - m) l.
 (* Series.var(ddof=0): mean squared deviation from the mean *)
 Definition variance (l : list Q) : Q := Qred (sum_sq (dev l) / qlen l).
 Definition sum_abs (l : list Q) : Q := qsum (map Qabs l).
 Definition sum_prod (xs ys : list Q) : Q := qsum (map (fun p => fst p * snd p) (combine xs ys)).
 
 (* order statistics *)
+(* a <= b; numerators are compared directly when the denominators coincide *)
+Definition qleb (a b : Q) : bool :=
+  if Pos.eqb (Qden a) (Qden b) then (Qnum a <=? Qnum b)%Z else Qle_bool a b.
 Module QOrder <: TotalLeBool.
   Definition t := Q.
-  Definition leb := Qle_bool.
+  Definition leb := qleb.
   Theorem leb_total : forall a1 a2, leb a1 a2 = true \/ leb a2 a1 = true.
   Proof.
-    intros a b. unfold leb. destruct (Qlt_le_dec b a) as [H|H].
-    - right. apply Qle_bool_iff. apply Qlt_le_weak. exact H.
-    - left. apply Qle_bool_iff. exact H.
+    intros a b. unfold leb, qleb. rewrite (Pos.eqb_sym (Qden b) (Qden a)).
+    destruct (Pos.eqb (Qden a) (Qden b)).
+    - destruct (Z.leb_spec (Qnum a) (Qnum b)); [left; reflexivity|right; apply Z.leb_le, Z.lt_le_incl; assumption].
+    - destruct (Qlt_le_dec b a) as [H|H].
+      + right. apply Qle_bool_iff. apply Qlt_le_weak. exact H.
+      + left. apply Qle_bool_iff. exact H.
   Qed.
 End QOrder.
 Module QSort := Sort QOrder.
